@@ -17,6 +17,8 @@ let () =
                 | "wal" -> M_wal.handle cmd args
                 | "raft" -> M_raft.handle cmd args
                 | "exec" -> M_exec.handle cmd args
+                | "value" -> M_value.handle cmd args
+                | "open" -> M_open.handle cmd args
                 | _ -> failwith ("unknown module " ^ m))
              | _ -> failwith "bad line"
            with
